@@ -118,8 +118,9 @@ func c16Render(d c16Dict, ctl *env.Controller) jh.Outcome { return c16RenderVari
 
 // c16Variants: 0 = the Dict alone in a fresh File; 1 = the qualified paths were made anonymous
 // imports before; 2 = another Dict comes first in the same File and the File is rendered twice
-// (the second output is judged).
-const c16Variants = 3
+// (the second output is judged); 3 = the Dict handed to ValuesFunc through g.Add; 4 = the Dict wrapped
+// in a statement, Values(Add(dict)).
+const c16Variants = 5
 
 func c16RenderVariant(d c16Dict, ctl *env.Controller, variant int) jh.Outcome {
 	if ctl != nil {
@@ -147,7 +148,14 @@ func c16RenderVariant(d c16Dict, ctl *env.Controller, variant int) jh.Outcome {
 		}
 		f.Var().Id("y").Op("=").Id("U").Values(jen.Dict{k1: jen.Lit(0), k2: jen.Id("T0")})
 	}
-	f.Var().Id("x").Op("=").Id("T").Values(dict)
+	switch variant {
+	case 3:
+		f.Var().Id("x").Op("=").Id("T").ValuesFunc(func(g *jen.Group) { g.Add(dict) })
+	case 4:
+		f.Var().Id("x").Op("=").Id("T").Values(jen.Add(dict))
+	default:
+		f.Var().Id("x").Op("=").Id("T").Values(dict)
+	}
 	o := jh.RenderFile(f)
 	if variant == 2 {
 		o = jh.RenderFile(f)
